@@ -85,6 +85,13 @@ def run(tier, seed):
                       agg=dict(fn='count', form='passive_shelf', side='room', label='R', dlabel=None, filter=None),
                       cmp=('agg', 'less than', dict(fn='count', form='entity', side='room', label='R', dlabel=None, filter=None)),
                       whenever=[], owhere=None))
+    # directed: three aggregates of which the first and the last share their outer label (of equal outer atoms the last one survives)
+    for l1, l2, l3 in (('R', 'Q', 'R'), ('R', 'R', 'Q'), ('Q', 'R', 'R')):
+        specs.append(dict(rooms=2, shelves=[(1, 2), (2, 2)], required=False,
+                          agg=dict(fn='max', form='passive_weight_each', side='room', label=l1, dlabel=None, filter=None),
+                          cmp=('between_aggs', dict(fn='count', form='passive_weight', side='room', label=l2, dlabel='D2', filter=('at most', 2)),
+                               dict(fn='min', form='passive_weight', side='room', label=l3, dlabel=None, filter=None)),
+                          whenever=[], owhere=None))
     texts = [gen_agg.render(s) for s in specs]
     res = impl.compile_many(texts)
     cases, meta = [], []
